@@ -260,11 +260,19 @@ def run_read(case, note, spec=None, tagprefix=""):
             obs["chunks"] = {str(r): len(spec["restarts"][
                 etgen.restart_index(spec, r)]["boxes"][rl]) for r in used}
             note.fail(tagprefix + disc + sfx, obs)
+        # every fourth request is read with the API's default verbosity or
+        # more (output swallowed)
+        vb = (sum(case["req"]["itsel"]) + len(case["req"]["varsel"])) % 8
+        vkw = dict(verbose=vb in (5, 6, 7))
+        if vb in (6, 7):
+            vkw.update(veryverbose=True, veryextraverbose=vb == 7)
+        if vkw["verbose"]:
+            note.cls("verbose-read")
         try:
             out = quiet(rd.read_data, param, split_per_it=False,
-                        skip_last=False, verbose=False,
+                        skip_last=False,
                         it=list(kw["it"]), vars=list(kw["vars"]), rl=rl,
-                        restart=kw["restart"])
+                        restart=kw["restart"], **vkw)
         except Exception as e:  # noqa: BLE001
             fail("raises", dict(error=f"{type(e).__name__}: {e}"[:300],
                                 request=kw))
